@@ -489,9 +489,14 @@ def main(pid, tier):
             req = {m: s}
             if m != "ovni":
                 req["ovni"] = models["ovni"]["version"]
-            streams.append({"req": req, "ev": [m]})
+            # a refusal must come from the version, not from an event of a model left disabled: every other
+            # case that must be refused carries no event of the model at all
+            streams.append({"req": req, "ev": [] if c.get("noev") else [m]})
         return streams, run_emu(bdir, streams, models, c["all"])
 
+    for k_, c in enumerate(emucases):
+        if c["rv"] == "reject" and k_ % 2 == 1:
+            c["noev"] = True
     results = core.pmap(emu_version_case, emucases)
     nacc = 0
     for c, (streams, res) in zip(emucases, results):
